@@ -63,6 +63,7 @@ def _reorder_lines(stmts: List[ast.stmt], call_line) -> None:
 # the known-findings file); everything else that is private and used once is put back into its caller
 ANCHORED_HELPERS = {
     '_parameter_with_currency_units_converted_back_to_preferred_units',     # C06 U7/U9: third sibling of the K/M prefix blocks
+    '_field_label',                                                         # the report-template engine reads label fields through it
 }
 
 
@@ -407,10 +408,13 @@ def _straight_line(helper: ast.FunctionDef) -> bool:
 
 def _expression_helper(fn: ast.AST, is_method: bool) -> Optional[ast.AST]:
     """The returned expression of a private helper whose body is (docstring +) `return <expr>`, else None."""
-    if not isinstance(fn, ast.FunctionDef) or fn.decorator_list:
+    if not isinstance(fn, ast.FunctionDef):
+        return None
+    static = len(fn.decorator_list) == 1 and isinstance(fn.decorator_list[0], ast.Name) and fn.decorator_list[0].id == 'staticmethod'
+    if fn.decorator_list and not static:
         return None
     a = fn.args
-    if a.vararg or a.kwarg or a.posonlyargs or (is_method and not a.args):
+    if a.vararg or a.kwarg or a.posonlyargs or (is_method and not static and not a.args):
         return None
     body = [s_ for s_ in _strip_doc(fn.body) if not isinstance(s_, (ast.Import, ast.ImportFrom))]     # function-local imports bind module names only
     if len(body) != 1 or not isinstance(body[0], ast.Return) or body[0].value is None:
@@ -467,14 +471,16 @@ def inline_expression_helpers(repo) -> List[str]:
                 def visit_Call(self, c):
                     self.generic_visit(c)
                     f = c.func
-                    hit = (is_method and isinstance(f, ast.Attribute) and f.attr == hname and isinstance(f.value, ast.Name) and f.value.id == 'self') or \
+                    static = bool(hnode.decorator_list)
+                    hit = (is_method and isinstance(f, ast.Attribute) and f.attr == hname and isinstance(f.value, ast.Name)
+                           and (f.value.id == 'self' or (static and f.value.id in ('cls', ci.name if ci else '')))) or \
                           (not is_method and isinstance(f, ast.Name) and f.id == hname)
                     if not hit:
                         return c
-                    params = _bind(hnode, c, is_method)
+                    params = _bind(hnode, c, is_method and not static)
                     if params is None:
                         return c
-                    if is_method:
+                    if is_method and not static:
                         params = dict(params)
                         params[hnode.args.args[0].arg] = ast.Name(id='self', ctx=ast.Load())
                     new = _Subst(params, {}).visit(clone(expr))
